@@ -1,0 +1,11 @@
+//go:build verif
+
+package req
+
+// VerifCloseHTTP3 closes the HTTP/3 round tripper's connections and its UDP socket
+// (C03 harness: one client per scripted exchange).
+func (t *Transport) VerifCloseHTTP3() {
+	if t.t3 != nil {
+		t.t3.Close()
+	}
+}
